@@ -2,7 +2,7 @@
 # usage: harvest_seed.sh <Cxx> <a|b>
 # Confirms a sub-agent's seeded change in its scratch worktree (suite passes with it, demo fails with it and
 # passes without it) and stores it under /verif/seeded/<Cxx>-<x>/ with the confirmation recorded in meta.json.
-ID=$1; X=$2; WT=/tmp/wt/$ID; S=$WT/seed/$X; OUT=/verif/seeded/$ID-$X
+ID=$1; X=$2; SD=${3:-seed}; O=${4:-$X}; WT=/tmp/wt/$ID; S=$WT/$SD/$X; OUT=/verif/seeded/$ID-$O
 [ -f "$S/patch.diff" ] || { echo "no patch $S"; exit 2; }
 cd "$WT" || exit 2
 git checkout -q -- odata_query
@@ -11,7 +11,7 @@ T=$(/venv/bin/python -m pytest -q -p no:cacheprovider --timeout=900 --continue-o
 /venv/bin/python "$S/demo.py" >/tmp/wt/demo_with.txt 2>&1; DW=$?
 git checkout -q -- odata_query
 /venv/bin/python "$S/demo.py" >/tmp/wt/demo_without.txt 2>&1; DO=$?
-echo "$ID-$X tests_with_change: $T | demo_with_change_exit=$DW | demo_without_exit=$DO"
+echo "$ID-$O tests_with_change: $T | demo_with_change_exit=$DW | demo_without_exit=$DO"
 case "$T" in *"648 passed, 10 xfailed, 4 errors"*) TOK=1;; *) TOK=0;; esac
 if [ "$TOK" = 1 ] && [ "$DW" != 0 ] && [ "$DO" = 0 ]; then
   mkdir -p "$OUT"
